@@ -258,11 +258,11 @@ def disc_module(E):
     lines += ["#[repr(%s)]" % r for r in E["reprs"]]
     lines.append("pub enum Ref%d {" % E["id"])
     for v in E["variants"]:
-        lines.append("    %s%s," % (uncp(v["id"]), (" = " + (v.get("discx") or str(v["disc"][0]))) if v["disc"] else ""))
+        lines.append("    %s%s," % (D.vid(v), (" = " + (v.get("discx") or str(v["disc"][0]))) if v["disc"] else ""))
     lines.append("}")
     src += "\n".join("    " + l for l in lines) + "\n}\n"
     src += "use inner::*;\n"
-    src += "fn d_index(d: %s) -> usize { match d { %s } }\n" % (dn, " ".join("%s::%s => %d," % (dn, uncp(v["id"]), i + 1) for i, v in enumerate(E["variants"])))
+    src += "fn d_index(d: %s) -> usize { match d { %s } }\n" % (dn, " ".join("%s::%s => %d," % (dn, D.vid(v), i + 1) for i, v in enumerate(E["variants"])))
     src += "const ANCHOR: i128 = 0;\n"
     has_into = E["dvis"] in ("", "pub")
     body = []
@@ -279,7 +279,7 @@ def disc_module(E):
                     vals.append(['""', '"brw"', '"bq"'][which])
                 else:
                     vals.append(D.TYPES[f["ty"]][1 + which])
-            ident = "%s::%s" % (n, uncp(v["id"]))
+            ident = "%s::%s" % (n, D.vid(v))
             if v["kind"] == "tuple":
                 ctor = "%s(%s)" % (ident, ", ".join(vals))
             elif v["kind"] == "named":
@@ -307,7 +307,7 @@ def disc_module(E):
     if E["dder"]:
         body += ["    {", "        use strum::IntoEnumIterator;",
                  "        let iter: Vec<String> = %s::iter().map(|d| d_index(d).to_string()).collect();" % dn,
-                 "        let all: Vec<%s> = vec![%s];" % (dn, ", ".join("%s::%s" % (dn, uncp(v["id"])) for v in E["variants"])),
+                 "        let all: Vec<%s> = vec![%s];" % (dn, ", ".join("%s::%s" % (dn, D.vid(v)) for v in E["variants"])),
                  "        let names: Vec<String> = all.iter().map(|d| d.to_string()).collect();",
                  "        let parsed: Vec<String> = names.iter().map(|s| match s.parse::<%s>() { Ok(d) => d_index(d).to_string(), Err(_) => \"0\".to_string() }).collect();" % dn,
                  "        let mut hs = std::collections::HashSet::new(); for d in &all { hs.insert(*d); }",
